@@ -506,6 +506,12 @@ func vfRunC16Case(env *vfEnv, part *vfPart, caseNo int) {
 					if last != nil && !describes {
 						sig = "re-locked-or-updated-hold"
 					}
+					if last != nil && (img.Live == nil || img.Phase == "start-up") {
+						// a compaction at start-up filters the records against the state the loader has just rebuilt,
+						// which for an updated hold need not be the stopped instance's (the loader's side of the open
+						// finding); "live" is the stopped instance here, so it cannot tell the two recoveries apart
+						sig = "re-locked-or-updated-hold"
+					}
 					if last != nil && describes && img.Live != nil {
 						// the image agrees with the running instance and only the replay of the uncompacted input files
 						// differs: that is the loader's handling of update records (the C07 side of the open finding),
